@@ -21,7 +21,7 @@ MUTATORS = {'append', 'extend', 'insert', 'pop', 'reverse', 'remove', 'sort', 'c
 
 
 class Eff:
-    __slots__ = ('exposed', 'must', 'may', 'idx_may', 'idx_must', 'at_yield', 'has_yield', 'exposed_idx', 'transient', 'unresolved')
+    __slots__ = ('exposed', 'must', 'may', 'idx_may', 'idx_must', 'at_yield', 'has_yield', 'exposed_idx', 'transient', 'unresolved', 'aliases')
 
     def __init__(self):
         self.exposed = set()
@@ -34,6 +34,7 @@ class Eff:
         self.exposed_idx = {}  # attr -> list of frozenset(idx_must ranges at the time of an exposed whole read)
         self.transient = set() # attrs saved before and restored in a finally block
         self.unresolved = set()
+        self.aliases = set()   # frozenset({a, b}): self.a = self.b without a copy
 
     def copy_from(self, o):
         for k in self.__slots__:
@@ -44,7 +45,7 @@ class Eff:
         return (frozenset(self.exposed), frozenset(self.must), frozenset(self.may),
                 frozenset((k, frozenset(v)) for k, v in self.idx_may.items()),
                 frozenset((k, frozenset(v)) for k, v in self.idx_must.items()),
-                None if self.at_yield is None else frozenset(self.at_yield), frozenset(self.transient))
+                None if self.at_yield is None else frozenset(self.at_yield), frozenset(self.transient), frozenset(self.aliases))
 
 
 class State:
@@ -367,6 +368,8 @@ class ClassEffects:
         if not prefix:
             e.transient |= set()
         e.unresolved |= ef.unresolved
+        if not prefix:
+            e.aliases |= ef.aliases
         return True
 
     def _call(self, n, st, e):
@@ -508,6 +511,11 @@ class ClassEffects:
             self._expr(s.value, st, e)
             for t in s.targets:
                 self._store(t, st, e, s.value)
+                # self.a = self.b : the two attributes now name one object
+                pa = self._path(t, st) if isinstance(t, ast.Attribute) else None
+                pb = self._path(s.value, st) if isinstance(s.value, ast.Attribute) else None
+                if pa and pb and len(pa) == 1 and len(pb) == 1 and pa != pb:
+                    e.aliases.add(frozenset((pa[0], pb[0])))
             return False
         if isinstance(s, ast.AugAssign):
             self._expr(s.value, st, e)
